@@ -149,10 +149,84 @@ def probe_part(data, feat):
 
 
 # --------------------------------------------------------------------------
+# logs and tables of generated sources (ground truth kept in memory; written
+# with raw h5py so that the source does not depend on the writer under test)
+# --------------------------------------------------------------------------
+ONE_BYTE = "abc xyz-_:=;0123456789ABC"
+TWO_BYTE = "\u00b5\u00e4\u00f6\u00fc\u00b0\u00df\u00e9\u03b1\u03b2\u03bb"
+THREE_BYTE = "\u20ac\u2192\u2026\u2713\u3042\u4e2d"
+
+
+def gen_log_line(rng):
+    """a line whose character and UTF-8 byte lengths lie around 100"""
+    kind = rng.choice(["ascii", "two", "two", "three", "mix", "mix"])
+    n = rng.choice([0, 1, 33, 34, 49, 50, 51, 67, 99, 100, 101, 102, 150,
+                    rng.randint(2, 160)])
+    if kind == "ascii":
+        pool = ONE_BYTE
+    elif kind == "two":
+        pool = TWO_BYTE
+    elif kind == "three":
+        pool = THREE_BYTE
+    else:
+        pool = ONE_BYTE + TWO_BYTE + THREE_BYTE
+    line = "".join(rng.choice(pool) for _ in range(n))
+    if kind == "mix" and n > 4 and rng.random() < 0.5:
+        # byte length just above 100 with fewer than 100 characters
+        line = line[:rng.choice([95, 97, 99])]
+    return line.rstrip("\x00")
+
+
+def gen_logs(rng):
+    logs = {}
+    for k in range(rng.randint(1, 3)):
+        logs["log-%s" % "abc"[k]] = [gen_log_line(rng)
+                                     for _ in range(rng.randint(1, 5))]
+    return logs
+
+
+def gen_tables(rng):
+    import numpy as np
+    tables = {}
+    for k in range(rng.randint(1, 2)):
+        ncol = rng.randint(1, 4)
+        rows = rng.randint(1, 7)
+        names = ["col_%d" % i for i in range(ncol)]
+        fmts = [rng.choice([np.float64, np.float64, np.int32, np.float32])
+                for _ in range(ncol)]
+        arr = np.zeros(rows, dtype=np.dtype({"names": names, "formats": fmts}))
+        for nm in names:
+            arr[nm] = [rng.randint(-400, 400) / 4 for _ in range(rows)]
+        attrs = {"unit": rng.choice(["s", "\u00b5m", "mbar"]),
+                 "scale": rng.randint(1, 9) / 2}
+        tables["tab-%d" % k] = (np.rec.array(arr), attrs)
+    return tables
+
+
+def write_raw_logs_tables(path, logs, tables, empty_log=False):
+    import numpy as np
+    import h5py
+    with h5py.File(path, "a") as h5:
+        lg = h5.require_group("logs")
+        for name, lines in logs.items():
+            bl = [ln.encode("utf-8") for ln in lines]
+            width = max([len(b) for b in bl] + [1])
+            lg.create_dataset(name, data=np.array(bl, dtype="S%d" % width))
+        if empty_log:
+            lg.create_dataset("log-empty", shape=(0,), dtype="S100")
+        tg = h5.require_group("tables")
+        for name, (arr, attrs) in tables.items():
+            t = tg.create_dataset(name, data=np.asarray(arr))
+            for k, v in attrs.items():
+                t.attrs[k] = v
+
+
+# --------------------------------------------------------------------------
 # sources
 # --------------------------------------------------------------------------
 def build_source(src, workdir):
-    """Returns (dataset, list of objects to keep alive)."""
+    """Returns (dataset, list of objects to keep alive, ground truth of logs
+    and tables or None)."""
     import numpy as np
     import dclab
     from . import gen
@@ -160,6 +234,7 @@ def build_source(src, workdir):
     rng = random.Random(src["seed"])
     t = src["type"]
     keep = []
+    truth = None
     if t in ("tdms", "hier-tdms"):
         from dclab.rtdc_dataset import fmt_tdms
         d = unzip_fixture(src["fixture"], workdir)
@@ -179,15 +254,25 @@ def build_source(src, workdir):
             root.config["experiment"]["run index"] = 1
             root.config["imaging"]["pixel size"] = 0.34
             root.config["user"]["note"] = "carried"
+            lrng = random.Random(src["seed"] + 7)
+            truth = dict(logs=gen_logs(lrng), tables=gen_tables(lrng))
+            for name, lines in truth["logs"].items():
+                root.logs[name] = list(lines)
+            for name, (arr, attrs) in truth["tables"].items():
+                root.tables[name] = arr
+            truth["tables"] = {k: (v[0], None)
+                               for k, v in truth["tables"].items()}
         else:
             path = os.path.join(workdir, "src.rtdc")
-            logs = {"log-a": ["line %d" % i for i in range(rng.randint(1, 4))],
-                    "log-b": ["x" * rng.randint(1, 120)]}
-            tables = {"tab": gen.small_table(rng)}
+            lrng = random.Random(src["seed"] + 7)
+            truth = dict(logs=gen_logs(lrng), tables=gen_tables(lrng))
+            if "logs" in src:
+                truth["logs"] = {k: list(v) for k, v in src["logs"].items()}
+            empty_log = lrng.random() < 0.3
             if t == "basin":
                 # the full data live in src.rtdc; the dataset under test is a
                 # small file with two scalars and a basin pointing to it
-                gen.write_spec(path, spec, logs=logs, tables=tables)
+                gen.write_spec(path, spec)
                 from dclab.rtdc_dataset.writer import RTDCWriter
                 small = os.path.join(workdir, "small.rtdc")
                 scal = [f for f in spec["features"] if kind_of(f) == 0][:2]
@@ -198,9 +283,13 @@ def build_source(src, workdir):
                     hw.store_basin(basin_name="full", basin_type="file",
                                    basin_format="hdf5", basin_locs=[path],
                                    basin_descr="verif basin")
+                write_raw_logs_tables(small, truth["logs"], truth["tables"],
+                                      empty_log)
                 root = dclab.new_dataset(small)
             else:
-                gen.write_spec(path, spec, logs=logs, tables=tables)
+                gen.write_spec(path, spec)
+                write_raw_logs_tables(path, truth["logs"], truth["tables"],
+                                      empty_log)
                 root = dclab.new_dataset(path)
         if src.get("temp"):
             v = np.array([[rng.randint(-9, 9) / 4 for _ in range(3)]
@@ -223,7 +312,7 @@ def build_source(src, workdir):
         root.apply_filter()
         ds = dclab.new_dataset(root)
         keep.append(ds)
-    return ds, keep
+    return ds, keep, truth
 
 
 def root_format(ds):
@@ -250,7 +339,7 @@ def run_export_case(case, workdir):
     res = dict(flat=None, coq=None, fail=None, finding=None, nontrivial=False,
                info={})
     try:
-        ds, keep = build_source(case["src"], workdir)
+        ds, keep, truth = build_source(case["src"], workdir)
         n = len(ds)
         mask = np.zeros(n, dtype=bool)
         for i in case["mask"]:
@@ -405,7 +494,7 @@ def run_export_case(case, workdir):
                 if m:
                     fails.append(m)
                 m = logs_tables_diff(ds, od, case.get("logs", False),
-                                     case.get("tables", False))
+                                     case.get("tables", False), truth)
                 if m:
                     fails.append(m)
         except Exception as e:
@@ -417,7 +506,15 @@ def run_export_case(case, workdir):
             lossy = [f for f in uniq if f in UINT_FEATS and kind_of(f) == 0
                      and len(exp_idx) and
                      (np.asarray(ds[f][:])[exp_idx] < 0).any()]
-            if lossy and all(any(("feature %s " % f) in m or
+            # same cause as F_SHORT, but the tdms image column answers an
+            # index beyond its length with a dummy image instead of raising
+            if (filtered and lens and lmin < n and len(idx)
+                    and (skip or min(lens) == max(lens))
+                    and idx.max() >= lmin and root_format(ds) == "tdms"
+                    and "image" in uniq):
+                res["finding"] = F_SHORT
+                res["coq"] = None      # the model raises IndexError here
+            elif lossy and all(any(("feature %s " % f) in m or
                                  ("feature %s:" % f) in m for f in lossy)
                              for m in fails):
                 res["finding"] = F_UINT
@@ -466,8 +563,49 @@ def meta_diff(ds, od, filtered):
     return None
 
 
-def logs_tables_diff(ds, od, logs, tables):
+def logs_tables_diff(ds, od, logs, tables, truth=None):
+    import numpy as np
     from . import gen
+    if truth is not None:
+        # the source itself must show what was put into it
+        for name, lines in truth["logs"].items():
+            if name not in ds.logs.keys() or list(ds.logs[name]) != lines:
+                return "source log %s is not what was written" % name
+        if logs:
+            for name, lines in truth["logs"].items():
+                key = "src_" + name
+                try:
+                    got = list(od.logs[key]) if key in od.logs.keys() else None
+                except Exception as e:
+                    return "log %s cannot be read back: %r" % (name, e)
+                if got != lines:
+                    bad = [i for i in range(min(len(got or []), len(lines)))
+                           if got[i] != lines[i]]
+                    return ("log %s not carried over unchanged (%s lines, "
+                            "expected %d; first differing line %s: %d "
+                            "characters / %d bytes)" % (
+                                name, None if got is None else len(got),
+                                len(lines), bad[:1],
+                                len(lines[bad[0]]) if bad else -1,
+                                len(lines[bad[0]].encode()) if bad else -1))
+        if tables:
+            for name, (arr, attrs) in truth["tables"].items():
+                key = "src_" + name
+                if key not in od.tables.keys():
+                    return "table %s not carried over" % name
+                xb = gen.table_array(od.tables[key])
+                if xb.dtype.names != arr.dtype.names:
+                    return "table %s columns %s became %s" % (
+                        name, arr.dtype.names, xb.dtype.names)
+                for col in arr.dtype.names:
+                    if not gen.arr_equal(np.asarray(arr[col]), xb[col]):
+                        return "table %s column %s differs" % (name, col)
+                if attrs is not None:
+                    oattrs = dict(od.tables[key].attrs)
+                    for k, v in attrs.items():
+                        if k not in oattrs or oattrs[k] != v:
+                            return "table %s attribute %s not carried" % (
+                                name, k)
     if logs:
         for name in ds.logs.keys():
             key = "src_" + name
@@ -595,7 +733,7 @@ def run_tsv_case(case, workdir):
     import numpy as np
     warnings.simplefilter("ignore")
     os.makedirs(workdir, exist_ok=True)
-    ds, keep = build_source(case["src"], workdir)
+    ds, keep, truth = build_source(case["src"], workdir)
     n = len(ds)
     mask = np.zeros(n, dtype=bool)
     for i in case["mask"]:
